@@ -553,7 +553,17 @@ fn shape_fx(f: &FXRates) -> Result<(), String> {
     for a in &ccys {
         for b in &ccys {
             match f.rate(a, b) {
-                Some(n) => shape_number(&n)?,
+                Some(n) => {
+                    shape_number(&n)?;
+                    // the rate of a currency against itself is exactly 1 in every market the
+                    // constructor can build, whatever its quotes hold
+                    if a == b {
+                        let r = see(&n).real;
+                        if r != 1.0 {
+                            return Err(format!("FXRates whose rate of a currency against itself is {:e}", r));
+                        }
+                    }
+                }
                 None => return Err("FXRates without a rate for one of its own currency pairs".into()),
             }
         }
@@ -1339,7 +1349,17 @@ fn exec_call(c: &CallSpec, obs: &mut Obs) -> Result<(), Fail> {
                 obs.count_n("reach.adjustments_on_a_calendar_with_a_first_trading_day", ok.len() as u64);
                 sweep_dates(&user, d, m, r, false, func, &ok, roll, obs, &panic_to)?;
             } else if makeup.is_empty() {
-                sweep_dates(&cal, d, m, r, *settlement, func, counts, roll, obs, &panic_to)?;
+                // through the concrete calendar type (its own trait implementation, which may
+                // override provided methods) or through the `CalType` wrapper, alternately
+                if d.and_utc().timestamp().div_euclid(86_400) % 2 == 0 {
+                    match &cal {
+                        CalType::Cal(c) => sweep_dates(c, d, m, r, *settlement, func, counts, roll, obs, &panic_to)?,
+                        CalType::UnionCal(c) => sweep_dates(c, d, m, r, *settlement, func, counts, roll, obs, &panic_to)?,
+                        CalType::NamedCal(c) => sweep_dates(c, d, m, r, *settlement, func, counts, roll, obs, &panic_to)?,
+                    }
+                } else {
+                    sweep_dates(&cal, d, m, r, *settlement, func, counts, roll, obs, &panic_to)?;
+                }
             } else {
                 // (an odd number of listed days: they are make-up working days; an even
                 // number: ad-hoc closures)
